@@ -40,7 +40,7 @@ func init() {
 	})
 }
 
-var emptyForms = []string{"{}", "Patient.photo", "%emptyc", "Patient.maritalStatus", "%nilc"} // (an absent repeated and an absent singular element)
+var emptyForms = []string{"{}", "Patient.photo", "%emptyc", "Patient.maritalStatus", "%nilc", "%sparec"} // (an absent repeated and an absent singular element)
 
 // c07Prog: want = "empty" | "empty-or-error" | "str:<text>"
 func c07Prog(env *core.Env, key, src, want string) {
@@ -201,7 +201,14 @@ func runC07(env *core.Env) {
 	for _, t := range readTable() {
 		sp := specByName(t.Name)
 		if sp != nil && !sp.Impl {
-			continue // placeholder
+			// pinned as a placeholder: skipped as long as it still answers "not yet implemented" on its
+			// specification receiver; once it does something else it is a function like the others
+			in, eo := stdInputs()
+			pr := fx.Eval(env, callSrc(t.Name, t.Min), in, buildCompileOpts("experimental"), eo)
+			if pr.Kind == "cerror" || (pr.IsError() && strings.Contains(pr.Err.Error(), "not yet implemented")) {
+				continue
+			}
+			env.Cover("former-placeholder-now-implemented")
 		}
 		if sp == nil && isPlaceholder(env, t) {
 			continue
